@@ -139,7 +139,9 @@ func (r *run) pickNext(me *thread, what string) *thread {
 			k = r.chooseN(len(cands), "schedule")
 		}
 		next = cands[k]
-		if !r.eng.NoSleepSets {
+		// opts sleepsets=off: the reduction judges independence by synchronisation objects only; it is unsound for code
+		// whose goroutines hand plain memory to each other (pooled objects) when that hand-over itself is under test
+		if !r.eng.NoSleepSets && r.eng.Opts["sleepsets"] != "off" {
 			for _, t := range cands[:k] {
 				s.sleep[t] = true
 			}
@@ -385,15 +387,24 @@ func (r *run) chanSend(c *Chan, v Value) {
 	if c == nil {
 		r.yield("send on nil chan", func() bool { return false })
 	}
-	r.yieldOn("chan send", []any{c}, func() bool { return c.closed || len(c.buf) < c.cap || c.recvWaiting > 0 })
+	r.yieldOn("chan send", []any{c}, func() bool { return c.sendReady() })
 	if c.closed {
 		panic(goPanic{msg: "send on closed channel"})
 	}
 	c.buf = append(c.buf, copyVal(v))
+	my := c.sentN
+	c.sentN++
 	if len(c.buf) > c.cap {
-		// rendezvous: wait until the receiver took it
-		r.yieldOn("chan send (rendezvous)", []any{c}, func() bool { return len(c.buf) <= c.cap })
+		// rendezvous: wait until the receiver took this very item
+		r.yieldOn("chan send (rendezvous)", []any{c}, func() bool { return c.recvN > my })
 	}
+}
+
+// sendReady: a send can proceed when the channel is closed (it panics), the buffer has room, or a receiver is
+// waiting that is not already spoken for by an earlier sender still in its rendezvous (each waiting receiver takes
+// exactly one item: a second sender must not hand its item to the same receiver).
+func (c *Chan) sendReady() bool {
+	return c.closed || len(c.buf) < c.cap || c.recvWaiting > len(c.buf)-c.cap
 }
 
 func (r *run) chanRecvOp(c *Chan) (Value, bool) {
@@ -406,6 +417,7 @@ func (r *run) chanRecvOp(c *Chan) (Value, bool) {
 	if len(c.buf) > 0 {
 		v := c.buf[0]
 		c.buf = c.buf[1:]
+		c.recvN++
 		return v, true
 	}
 	return zero(c.et), false
@@ -433,7 +445,7 @@ func (r *run) selectOp(instr *ssa.Select, fr *frame) Value {
 		if k.recv {
 			return len(k.c.buf) > 0 || k.c.closed
 		}
-		return k.c.closed || len(k.c.buf) < k.c.cap || k.c.recvWaiting > 0
+		return k.c.sendReady()
 	}
 	anyReady := func() bool {
 		for _, k := range cases {
@@ -489,6 +501,7 @@ func (r *run) selectOp(instr *ssa.Select, fr *frame) Value {
 			if len(k.c.buf) > 0 {
 				v := k.c.buf[0]
 				k.c.buf = k.c.buf[1:]
+				k.c.recvN++
 				recvVals = append(recvVals, v)
 				res[1] = term.True
 			} else {
@@ -504,8 +517,10 @@ func (r *run) selectOp(instr *ssa.Select, fr *frame) Value {
 			panic(goPanic{msg: "send on closed channel"})
 		}
 		k.c.buf = append(k.c.buf, copyVal(k.send))
+		my := k.c.sentN
+		k.c.sentN++
 		if len(k.c.buf) > k.c.cap {
-			r.yieldOn("select send (rendezvous)", []any{k.c}, func() bool { return len(k.c.buf) <= k.c.cap })
+			r.yieldOn("select send (rendezvous)", []any{k.c}, func() bool { return k.c.recvN > my })
 		}
 	}
 	return append(res, recvVals...)
